@@ -839,7 +839,7 @@ def set_dtbs_error_model(model: Model, fix_to_log: bool = False):
     obs = model.observation_transformation
     obs = obs.replace(
         y,
-        Expr.piecewise((y.log(), sympy.Eq(lam, 0)), ((y**lam - 1) / lam, sympy.Ne(lam, 0))),
+        Expr.piecewise((y.log(), sympy.Eq(lam, 0)), ((y**lam - 1) / lam, True)),
     )
     model = model.replace(observation_transformation=obs, statements=statements)
 
